@@ -45,6 +45,21 @@ def daemon_specs(tier, seed):
                             "uids": uids, "gids": gids, "umask": um}}
         specs.append(flowcheck.prepare(dict(tag="C13/s%03d" % len(specs), certs=[c], global_opts=g, account_hooks=file_hooks,
                                             steps=[("run", {"attempts": 2, "umask": um})], meta=meta)))
+    # a file-pre-edit hook that moves the old file out of the way (the usual backup hook): the rewrite then creates the file afresh - with
+    # the configured mode all the same
+    for um, pk, crt in ((0o022, None, 0o600), (0o027, None, None), (0o022, 0o640, 0o640)):
+        hooks = standard_hooks() + [{"name": "backup", "type": ["file-pre-edit"], "cmd": "mv", "args": ["{{ file_path }}", "{{ file_path }}.bak"]}]
+        g = {}
+        if pk is not None:
+            g["pk_file_mode"] = Raw("0o%o" % pk)
+        if crt is not None:
+            g["cert_file_mode"] = Raw("0o%o" % crt)
+        meta = {"family": "daemon files, pre-edit hook moves the file away", "umask": um,
+                "storage": {"modes": {"account": 0o600, "pk": pk if pk is not None else 0o600, "crt": crt if crt is not None else 0o644},
+                            "uids": {"account": -1, "pk": -1, "crt": -1}, "gids": {"account": -1, "pk": -1, "crt": -1}, "umask": um}}
+        c = simple_cert("mv%d" % len(specs))
+        specs.append(flowcheck.prepare(dict(tag="C13/s%03d" % len(specs), certs=[c], global_opts=g, hooks=hooks, account_hooks=file_hooks + ["backup"],
+                                            steps=[("run", {"attempts": 2, "umask": um}), ("run", {"attempts": 1, "umask": um})], meta=meta)))
     # the mode options given in the main file and overridden by included files (the last file that sets an option decides): what
     # the administrator asked for is what the merged configuration says
     for k, (main_pk, main_crt, a_pk, a_crt, b_pk, b_crt, um) in enumerate(((0o644, 0o644, 0o600, 0o640, None, None, 0o022),
